@@ -132,6 +132,11 @@ def base_dumps():
     big_codes = B.v3_block(B.TAG_TRACE_CODES, b''.join(b'0x%x NAME_%d\n' % (0x1000 + i, i) for i in range(110)))
     big_procs = B.v3_block(B.TAG_PROCESSES, B.bplist({'Processes': [{'n': 'p%d' % i, 'v': i} for i in range(60)]}))
     out['v3-big-sections'] = v3d(threads=[(1, 10, 'procA')], chunks=[plain[:2]], blocks=[big_codes, big_procs, sidx])
+    # the stackshot is arbitrary binary data: here it holds a well-formed thread-map chunk and a well-formed events chunk (one write()
+    # call) IN FRONT of its end marker; nothing of it is ever reported, also when the dump is cut inside it
+    ghost = [R('BSC_write', 1, (7, 0x7777, 119, 0), tid=4, ts=1), R('BSC_write', 2, (0, 119, 0, 0), tid=4, ts=2)]
+    fake = b'ab' + B.TAG_THREADMAP + B.le(32, 8) + B.threadmap_entries([(4, 44, 'ghost')]) + B.TAG_EVENTS + B.le(64 * 2 + 8, 8) + b'\0' * 8 + b''.join(ghost) + b'\0' * 40
+    out['v3-stackshot-holds-chunks'] = v3d(threads=[(1, 10, 'procA')], chunks=[plain[:2]], filler1=fake)
     out['v3-nochunks-meta'] = v3d(threads=[], chunks=[[]], blocks=[codes], with8=False)
     return out
 
@@ -271,14 +276,23 @@ def judge_cli_limit(name, consumer, c):
     from pykdebugparser.__main__ import print_with_count
     blob, recs = dumps()[name]
     f = PyKdebugParser()
-    gen = f.formatted_kevents(io.BytesIO(blob), tc()) if consumer == 'formatted_kevents' else f.formatted_traces(io.BytesIO(blob), tc())
     fitems, fhow = full(name, consumer)
+    if fhow != 'end':
+        return [('complete-dump-does-not-parse:' + fhow, {})]
+    reader = CountingReader(blob)
+    gen = f.formatted_kevents(reader, tc()) if consumer == 'formatted_kevents' else f.formatted_traces(reader, tc())
     buf = io.StringIO()
+    signal.signal(signal.SIGALRM, _alarm)
+    signal.setitimer(signal.ITIMER_REAL, 20.0)
     try:
         with contextlib.redirect_stdout(buf):
             print_with_count(gen, c)
+    except (BudgetExceeded, Watchdog):
+        return [('no-termination-on-complete-dump:command-line', {'limit': c, 'read_calls': reader.calls})]
     except Exception as ex:
         return [('cli-count-limited-run-failed:' + type(ex).__name__, {'limit': c})]
+    finally:
+        signal.setitimer(signal.ITIMER_REAL, 0)
     got = buf.getvalue().split('\n')[:-1] if buf.getvalue() else []
     exp = list(fitems) if c < 0 else list(fitems[:c])
     exp_lines = [l for x in exp for l in str(x).split('\n')]
